@@ -37,7 +37,7 @@ func run(c *lib.Ctx) error {
 	if c.Thorough() {
 		bounds = []bound{{2, 1, 2}, {1, 1, 4}}
 	}
-	c.Set("bounds", map[string]any{"exhaustive": bounds, "random_histories": c.Pick(24, 300), "history_length": 40, "big_lists": []int{33, 1057}})
+	c.Set("bounds", map[string]any{"exhaustive": bounds, "random_histories": c.Pick(16, 300), "history_length": 40, "big_lists": []int{33, 1057}})
 	seen := map[string]bool{}
 	for _, b := range bounds {
 		r, err := c.TLC(fmt.Sprintf("MCAlias(steps=%d,init=%d)", b.steps, b.ninit), lib.TLCRun{Dir: dir, Module: "MCAlias", Workers: 6, Timeout: 12 * time.Minute, HeapGB: 8,
@@ -65,6 +65,10 @@ func run(c *lib.Ctx) error {
 			seen[k] = true
 			behs = append(behs, beh)
 		}
+		if os.Getenv("VERIF_CORRUPT") == "g" { // development-time vacuity guard
+			last := behs[len(behs)/2]
+			last[len(last)-1].Al[0].Val = atom(424242)
+		}
 		c.Logf("model steps<=%d: %d distinct states, %d transitions, %d distinct behaviours", b.steps, r.Distinct, r.Generated, len(behs))
 		var mu sync.Mutex
 		n := 0
@@ -82,14 +86,14 @@ func run(c *lib.Ctx) error {
 	c.Set("exhaustive", true)
 
 	// ---- V
-	nh := c.Pick(24, 300)
+	nh := c.Pick(16, 300)
 	hist := make([][]Event, nh)
 	lib.Parallel(nh, 6, func(h int) {
 		kind := "nested"
 		length := 40
 		switch {
 		case h == 0:
-			kind, length = "big1057", 16
+			kind, length = "big1057", 12
 		case h == 1:
 			kind, length = "big33", 30
 		case c.Thorough() && h%25 == 2:
@@ -100,6 +104,10 @@ func run(c *lib.Ctx) error {
 		hist[h] = randomHistory(c, newRand(c.Seed*100003+int64(h)), kind, length)
 	})
 	c.Sample(hist[2][:min(4, len(hist[2]))])
+	if os.Getenv("VERIF_CORRUPT") == "v" {
+		e := &hist[2][len(hist[2])-1]
+		e.Store[1] = atom(424242)
+	}
 	if err := judge(c, dir, hist); err != nil {
 		return err
 	}
